@@ -1,4 +1,5 @@
 import StepModel.Generated.GenBound
+import StepModel.Generated.RefOutGen
 import StepModel.ExpressHash
 import StepModel.GenFiles
 /-!
@@ -93,5 +94,37 @@ def scannerStdout (α : Ambient) (f : GenFiles.SchemaFile) : List String :=
     element i (in definition order) has payload address `α.addr (base + i)` -/
 def dictOrderUnder (α : Ambient) (base : Nat) (keys : List String) : List String :=
   (ExpressHash.dictOrder (keys.zipIdx.map fun (k, i) => (k, α.addr (base + i)))).map (·.1)
+
+/-! ## exppp `REFout` (src/exppp/pretty_ref.c): grouping of item-wise USE / REFERENCE clauses by supplier schema -/
+open StepModel.Generated.RefOut
+
+def hexDigits : Nat → Nat → List Char
+  | 0, _ => []
+  | fuel + 1, n => if n < 16 then [Nat.digitChar n] else hexDigits fuel (n / 16) ++ [Nat.digitChar (n % 16)]
+
+/-- `%p` of glibc: "0x" and the lower-case hexadecimal digits -/
+def pointerText (a : Nat) : String := "0x" ++ String.ofList (hexDigits 17 a)
+
+/-- one entry of a schema's `usedict` / `refdict`: the item's name (dictionary key), its supplier schema (name and the
+    number of the Schema object, for its address) -/
+structure RefEntry where
+  item : String
+  supplier : String
+  supplierObj : Nat
+  deriving Repr
+
+/-- the key REFout files an entry under -/
+def refKeyOf (kk : RefKey) (α : Ambient) (e : RefEntry) : String :=
+  match kk with
+  | .schemaName => e.supplier
+  | .address => pointerText (α.addr e.supplierObj)
+
+/-- the order in which REFout emits the `USE FROM s ( … )` / `REFERENCE FROM s ( … )` groups: step 1 walks `refdict` in
+    DICTdo order and files every entry under its key in a fresh dictionary (`DICTdefine` on the first entry of a supplier;
+    the payload is a freshly allocated list, an address); step 2 walks that dictionary in DICTdo order. -/
+def refoutGroupOrder (kk : RefKey) (α : Ambient) (listBase : Nat) (entries : List RefEntry) : List String :=
+  let walked := (ExpressHash.dictOrder (entries.map fun e => (e.item, e))).map (·.2)
+  let filed := walked.zipIdx.map fun (e, i) => (refKeyOf kk α e, (e.supplier, α.addr (listBase + i)))
+  (ExpressHash.dictOrder filed).map (·.2.1)
 
 end StepModel.GenDeterm
